@@ -6,4 +6,4 @@ Extraction "spec_model.ml" zadd zmul zopp zeqb zltb z_of_nat z_to_nat z_of_n z_t
   spec_metrics_doc spec_fill_doc spec_doc_has_ts_seconds spec_deltas spec_tokens spec_encode_deltas count_zeros maximal_runs
   spec_class header_exact chunk_id chunk_docs spec_payload canonical_payload
   triv_deflate triv_inflate x_spec_decode_stream x_spec_decode_bytes x_spec_encode x_canonical_chunk item_tables
-  c03_encode_verdict c03_encode_ok table_columns table_docs.
+  c03_encode_verdict c03_encode_ok table_columns table_docs c03_encode_docs_ok self_fill.
